@@ -374,7 +374,51 @@ static Plan gen_c19(const string &cfg, uint64_t seed, long long index) {
     return p;
 }
 
+// small-scope systematic part: index -> sequence over a 21-symbol alphabet, all lengths 1..6 in order
+static const int SMALL_NSYM = 21;
+static long long small_count(int maxlen) { long long t = 0, p = 1; for (int l = 1; l <= maxlen; l++) { p *= SMALL_NSYM; t += p; } return t; }
+static Plan gen_small(const string &prop, uint64_t seed, long long index) {
+    Plan p; p.prop = prop; p.cfg = "small"; p.seed = seed; p.index = index; p.nobj = 1;
+    p.fill = sim_mix64(seed ^ (uint64_t)index ^ 0x5a11);
+    sim_rng r = sim_derive(seed, 0x5a11);
+    // six addresses: three fixed discriminating ones, three drawn from the pools by the seed
+    string addr[6] = { "user@example.com", "\xd0\xb8\xd0\xb2\xd0\xb0\xd0\xbd@\xd0\xbf\xd0\xbe\xd1\x87\xd1\x82\xd0\xb0.\xd1\x80\xd1\x84", "u@\xe2\x98\x95.de",
+                       pick(r, G.gen), pick(r, G.emails), G.pairs.empty() ? pick(r, G.idn) : G.pairs[sim_below(&r, G.pairs.size())].first };
+    int L = 1; long long base = 0, pw = SMALL_NSYM;
+    while (L < 6 && index >= base + pw) { base += pw; pw *= SMALL_NSYM; L++; }
+    long long d = index - base;
+    for (int i = 0; i < L; i++) {
+        int sym = (int)(d % SMALL_NSYM); d /= SMALL_NSYM;
+        Op op; op.o = 0;
+        if (sym < 5) { static const long long RV[5] = { 0, 1, 2, 3, 99 }; op.k = SET_RFC; op.v = RV[sym]; }
+        else if (sym == 5) op.k = SETUP;
+        else if (sym < 8) { op.k = SET_TLD; op.v = sym - 6; }
+        else if (sym < 11) { static const long long AV[3] = { 0, 0x7fc, 1 << 4 }; op.k = SET_ALLOW; op.v = AV[sym - 8]; }
+        else if (sym < 17) { op.k = IS_EMAIL; op.a = addr[sym - 11]; }
+        else if (sym == 17) op.k = ERRSTR;
+        else if (sym == 18) op.k = FREE_INIT;
+        else { op.k = IS_EMAIL; op.a = addr[sym == 19 ? 1 : 2]; op.f_on = true; op.f_code = sym == 19 ? -100 : -304; op.f_buf = sym == 19 ? 1 : 0; }
+        p.ops.push_back(op);
+    }
+    return p;
+}
+
+// corpus sweep (C18 lock-step): every pool address in every mode with tld_check off and on through ONE reused object
+static Plan gen_corpus(const string &prop, uint64_t seed, long long index) {
+    Plan p; p.prop = prop; p.cfg = "corpus"; p.seed = seed; p.index = index; p.nobj = 1; p.fill = sim_mix64(seed ^ (uint64_t)index ^ 0xc0);
+    const size_t CH = 20; size_t lo = (size_t)index * CH;
+    for (int m = 0; m < 4; m++) for (int t = 0; t < 2; t++) {
+        Op a; a.k = SET_RFC; a.v = m; p.ops.push_back(a);
+        Op b; b.k = SETUP; p.ops.push_back(b);
+        Op c; c.k = SET_TLD; c.v = t; p.ops.push_back(c);
+        for (size_t i = lo; i < lo + CH && i < G.all.size(); i++) { Op e; e.k = IS_EMAIL; e.a = G.all[i]; p.ops.push_back(e); }
+    }
+    return p;
+}
+
 static Plan gen_plan(const string &prop, const string &cfg, uint64_t seed, long long index) {
+    if (cfg == "small") return gen_small(prop, seed, index);
+    if (cfg == "corpus") return gen_corpus(prop, seed, index);
     if (prop == "C19") return gen_c19(cfg, seed, index);
     return gen_history(prop, cfg, seed, index);
 }
@@ -886,6 +930,7 @@ static bool run_plan(const Plan &p, bool want_log, vector<Viol> &viols, uint64_t
         ph = sim_fnv1a(SIM_FNV_INIT, oj.data(), oj.size());
         ST.plan_hashes.insert(ph);
         bool faultcfg = (p.cfg == "fault" || p.cfg == "single" || p.cfg == "multi" || p.cfg == "lockstep-fault");
+        if (p.cfg == "small" || p.cfg == "corpus") faultcfg = false;
         bool sfcfg = (p.cfg == "ctxfault");
         if (ex->any_state_change && ex->nontrivial_cmp && (!faultcfg || ex->any_fired) && (!sfcfg || ex->any_sf_fired)) ST.nontrivial.insert(ph);
     }
@@ -954,6 +999,8 @@ static void probe() {
     j.set("pool_emails", (long long)G.emails.size()); j.set("pool_idn", (long long)G.idn.size());
     j.set("pool_generated", (long long)G.gen.size()); j.set("pool_converter_reaching", (long long)G.conv.size());
     j.set("pool_domains", (long long)G.domains.size()); j.set("pool_all", (long long)G.all.size());
+    j.set("corpus_plans", (long long)((G.all.size() + 19) / 20));
+    { sj::Value sc = sj::Value::array(); for (int l = 1; l <= 6; l++) sc.push(sj::Value::integer(small_count(l))); j.set("small_scope_plans_up_to_length", sc); }
     int def_allow = 0x2f8;
     std::set<string> uniq(G.all.begin(), G.all.end());
     long long disc[4][4] = { { 0 } }; std::set<int> codes; long long tldsens = 0, allowsens = 0, idnfail = 0;
@@ -989,7 +1036,7 @@ static bool flag(int argc, char **argv, const char *name) {
 }
 
 extern "C" __attribute__((used)) const char *__asan_default_options() {
-    return "exitcode=77:detect_leaks=0:abort_on_error=0:allocator_may_return_null=1:detect_stack_use_after_return=0";
+    return "exitcode=77:detect_leaks=0:abort_on_error=0:allocator_may_return_null=1:detect_stack_use_after_return=0:quarantine_size_mb=8:thread_local_quarantine_size_kb=64";
 }
 extern "C" __attribute__((used)) const char *__ubsan_default_options() {
     return "halt_on_error=1:exitcode=77:print_stacktrace=1";
